@@ -115,39 +115,48 @@ theorem bwd_spec (N : Nat) (mk mk' : Nat → Nat → Gate) (f : Nat → Gate →
 
 /-! ## re-indexing in the repaired code does not depend on the counter `j` -/
 
-theorem rep_modFix (cc : Bool) : (Variant.rep cc).modFix = true := rfl
-theorem rep_roleFix (cc : Bool) : (Variant.rep cc).roleFix = true := rfl
-theorem rep_argFix (cc : Bool) : (Variant.rep cc).argFix = true := rfl
-theorem rep_measFix (cc : Bool) : (Variant.rep cc).measFix = true := rfl
-theorem rep_cond (cc : Bool) (g : Gate) : (Variant.rep cc).cond g = if cc then g.extra else 0 := rfl
+theorem rep_modFix (cc rz : Bool) : (Variant.rep cc rz).modFix = true := rfl
+theorem rep_roleFix (cc rz : Bool) : (Variant.rep cc rz).roleFix = true := rfl
+theorem rep_argFix (cc rz : Bool) : (Variant.rep cc rz).argFix = true := rfl
+theorem rep_measFix (cc rz : Bool) : (Variant.rep cc rz).measFix = true := rfl
+theorem rep_cond (cc rz : Bool) (g : Gate) : (Variant.rep cc rz).cond g = if cc then g.extra else 0 := rfl
+theorem rep_rzFix (cc rz : Bool) : (Variant.rep cc rz).rzFix = rz := rfl
 theorem fixed_cond (g : Gate) : Variant.fixed.cond g = 0 := rfl
 
-theorem reidxCtl1_swapG (cc : Bool) (N e j a b : Nat) :
-    reidxCtl1 (.rep cc) N e j (swapG a b) = swapG ((e + a) % N) ((e + b) % N) := by
+theorem reidxCtl1_swapG (cc rz : Bool) (N e j a b : Nat) :
+    reidxCtl1 (.rep cc rz) N e j (swapG a b) = swapG ((e + a) % N) ((e + b) % N) := by
   cases cc <;> simp [reidxCtl1, swapG, GName.isCtl, lowIdx, Variant.rep, Variant.cond]
 
 /-- the copy of the routed gate keeps its condition `x` (`x = 0` when conditions are dropped) -/
-theorem reidxCtl1_mkCtl (cc : Bool) (N e j : Nat) (nm : GName) (hnm : nm.isCtl = true) (x : Nat)
+theorem reidxCtl1_mkCtl (cc rz : Bool) (N e j : Nat) (nm : GName) (hnm : nm.isCtl = true) (x : Nat)
     (hx : cc = false → x = 0) (b : Bool) (lo hi : Nat) :
-    reidxCtl1 (.rep cc) N e j (mkCtl nm x b lo hi) = mkCtl nm x b ((e + lo) % N) ((e + hi) % N) := by
+    reidxCtl1 (.rep cc rz) N e j (mkCtl nm x b lo hi) = mkCtl nm x b ((e + lo) % N) ((e + hi) % N) := by
   cases cc
   · have := hx rfl; subst this
     cases b <;> simp [reidxCtl1, mkCtl, hnm, lowIdx, Variant.rep, Variant.cond]
   · cases b <;> simp [reidxCtl1, mkCtl, hnm, lowIdx, Variant.rep, Variant.cond]
 
-theorem reidxSwp1_swapG (cc : Bool) (N e j a b : Nat) :
-    reidxSwp1 (.rep cc) N e j (swapG a b) = swapG ((e + a) % N) ((e + b) % N) := by
+theorem reidxSwp1_swapG (cc rz : Bool) (N e j a b : Nat) :
+    reidxSwp1 (.rep cc rz) N e j (swapG a b) = swapG ((e + a) % N) ((e + b) % N) := by
   cases cc <;> simp [reidxSwp1, swapG, lowIdx, Variant.rep, Variant.cond]
 
-theorem reidxSwp1_mkSwp (cc : Bool) (N e j : Nat) (nm : GName) (a x : Nat) (hx : cc = false → x = 0)
+theorem reidxSwp1_mkSwp (cc rz : Bool) (N e j : Nat) (nm : GName) (a x : Nat) (hx : cc = false → x = 0)
     (lo hi : Nat) :
-    reidxSwp1 (.rep cc) N e j (mkSwp nm a x lo hi) = mkSwp nm a x ((e + lo) % N) ((e + hi) % N) := by
+    reidxSwp1 (.rep cc rz) N e j (mkSwp nm a x lo hi) = mkSwp nm a x ((e + lo) % N) ((e + hi) % N) := by
   cases cc
   · have := hx rfl; subst this
     simp [reidxSwp1, mkSwp, lowIdx, Variant.rep, Variant.cond]
   · simp [reidxSwp1, mkSwp, lowIdx, Variant.rep, Variant.cond]
 
-theorem cond_zero_of_not_cc (cc : Bool) (g : Gate) : cc = false → (Variant.rep cc).cond g = 0 := by
+theorem reidxSwp1_mkOrd (cc rz : Bool) (N e j : Nat) (nm : GName) (a x : Nat) (hx : cc = false → x = 0)
+    (fl : Bool) (lo hi : Nat) :
+    reidxSwp1 (.rep cc rz) N e j (mkOrd nm a x fl lo hi) = mkOrd nm a x fl ((e + lo) % N) ((e + hi) % N) := by
+  cases cc
+  · have := hx rfl; subst this
+    cases fl <;> simp [reidxSwp1, mkOrd, lowIdx, Variant.rep, Variant.cond]
+  · cases fl <;> simp [reidxSwp1, mkOrd, lowIdx, Variant.rep, Variant.cond]
+
+theorem cond_zero_of_not_cc (cc rz : Bool) (g : Gate) : cc = false → (Variant.rep cc rz).cond g = 0 := by
   intro h; subst h; rfl
 
 /-! ## the two kinds of handled gates -/
@@ -169,11 +178,11 @@ theorem fixed_measFix : Variant.fixed.measFix = true := rfl
 
 /-- CNOT / CSIGN with control `c`, target `t`: the routed gate keeps the roles (and, with C07-5, the
 classical condition).  Every `setup`. -/
-theorem routeCtl_specV (cc : Bool) (N : Nat) (setup : Setup)
+theorem routeCtl_specV (cc rz : Bool) (N : Nat) (setup : Setup)
     (g : Gate) (c t : Nat) (hnm : g.name.isCtl = true) (hC : g.controls = [c]) (hT : g.targets = [t])
     (hct : c ≠ t) (hc : c < N) (ht : t < N) :
-    ∃ out S, routeCtl (.rep cc) N setup g c t = .ok out ∧
-      Routed setup.eff N c t out S ⟨g.name, [track S c], [track S t], 0, (Variant.rep cc).cond g⟩ := by
+    ∃ out S, routeCtl (.rep cc rz) N setup g c t = .ok out ∧
+      Routed setup.eff N c t out S ⟨g.name, [track S c], [track S t], 0, (Variant.rep cc rz).cond g⟩ := by
   -- the two orientations
   obtain ⟨s, e, ce, hmin, hmax, hce, hse, heN, hr⟩ :
       ∃ s e ce, min t c = s ∧ max t c = e ∧ (e == c) = ce ∧ s < e ∧ e < N ∧
@@ -182,8 +191,8 @@ theorem routeCtl_specV (cc : Bool) (N : Nat) (setup : Setup)
     · refine ⟨c, t, false, by omega, by omega, ?_, h, ht, Or.inr ⟨rfl, rfl, rfl⟩⟩
       simp; omega
     · exact ⟨t, c, true, by omega, by omega, by simp, h, hc, Or.inl ⟨rfl, rfl, rfl⟩⟩
-  generalize hx : (Variant.rep cc).cond g = x
-  have hx0 : cc = false → x = 0 := fun h => by rw [← hx]; exact cond_zero_of_not_cc cc g h
+  generalize hx : (Variant.rep cc rz).cond g = x
+  have hx0 : cc = false → x = 0 := fun h => by rw [← hx]; exact cond_zero_of_not_cc cc rz g h
   simp only [routeCtl, hmin, hmax, hce, rep_roleFix, if_true, hx]
   by_cases hfw : setup = .linear ∨ (setup = .circular ∧ e - s ≤ N / 2)
   · rw [if_pos hfw]
@@ -201,8 +210,8 @@ theorem routeCtl_specV (cc : Bool) (N : Nat) (setup : Setup)
     rw [hcirc]
     by_cases hlt : e - s + 1 < N
     · rw [if_pos hlt]
-      obtain ⟨S, h1, h2, h3⟩ := bwd_spec N (mkCtl g.name x (!ce)) (mkCtl g.name x (!ce)) (reidxCtl1 (.rep cc) N e) s e
-        hse heN (reidxCtl1_swapG cc N e) (fun j lo hi => reidxCtl1_mkCtl cc N e j g.name hnm x hx0 (!ce) lo hi)
+      obtain ⟨S, h1, h2, h3⟩ := bwd_spec N (mkCtl g.name x (!ce)) (mkCtl g.name x (!ce)) (reidxCtl1 (.rep cc rz) N e) s e
+        hse heN (reidxCtl1_swapG cc rz N e) (fun j lo hi => reidxCtl1_mkCtl cc rz N e j g.name hnm x hx0 (!ce) lo hi)
       refine ⟨_, S, rfl, ?_⟩
       rcases hr with ⟨rfl, rfl, rfl⟩ | ⟨rfl, rfl, rfl⟩
       · exact ⟨by rw [h1]; rfl, h3, h2⟩
@@ -214,29 +223,38 @@ theorem routeCtl_specV (cc : Bool) (N : Nat) (setup : Setup)
       simp only [eq_self, true_and]
       rcases hr with ⟨-, rfl, rfl⟩ | ⟨-, rfl, rfl⟩ <;> omega
 
-/-- exchange-type gate on targets `[t0, t1]`: the routed gate acts on the images of the two
-qubits, listed in one of the two orders.  Every `setup`. -/
-theorem routeSwp_specV (cc : Bool) (N : Nat) (setup : Setup)
+/-- exchange-type gate — or, with C13-3, an ordered two-target gate (RZX) — on targets `[t0, t1]`: the
+routed gate acts on the images of the two qubits; an ordered gate lists them in the order of its
+targets, an exchange-type gate in one of the two orders.  Every `setup`. -/
+theorem routeSwp_specV (cc rz : Bool) (N : Nat) (setup : Setup)
     (g : Gate) (t0 t1 : Nat) (h01 : t0 ≠ t1) (h0 : t0 < N) (h1 : t1 < N) :
-    ∃ S p q, Routed setup.eff N t0 t1 (routeSwp (.rep cc) N setup g t0 t1) S
-        ⟨g.name, [], [p, q], g.arg, (Variant.rep cc).cond g⟩ ∧
-      ((p = track S t0 ∧ q = track S t1) ∨ (p = track S t1 ∧ q = track S t0)) := by
+    ∃ S p q, Routed setup.eff N t0 t1 (routeSwp (.rep cc rz) N setup g t0 t1) S
+        ⟨g.name, [], [p, q], g.arg, (Variant.rep cc rz).cond g⟩ ∧
+      ((p = track S t0 ∧ q = track S t1) ∨
+        ((rz && g.name.isOrd) = false ∧ p = track S t1 ∧ q = track S t0)) := by
   obtain ⟨s, e, hmin, hmax, hse, heN, hr⟩ :
       ∃ s e, min t0 t1 = s ∧ max t0 t1 = e ∧ s < e ∧ e < N ∧ ((s = t0 ∧ e = t1) ∨ (s = t1 ∧ e = t0)) := by
     rcases Nat.lt_or_gt_of_ne h01 with h | h
     · exact ⟨t0, t1, by omega, by omega, h, h1, Or.inl ⟨rfl, rfl⟩⟩
     · exact ⟨t1, t0, by omega, by omega, h, h0, Or.inr ⟨rfl, rfl⟩⟩
-  generalize hx : (Variant.rep cc).cond g = x
-  have hx0 : cc = false → x = 0 := fun h => by rw [← hx]; exact cond_zero_of_not_cc cc g h
-  simp only [routeSwp, hmin, hmax, rep_argFix, if_true, hx]
+  generalize hx : (Variant.rep cc rz).cond g = x
+  have hx0 : cc = false → x = 0 := fun h => by rw [← hx]; exact cond_zero_of_not_cc cc rz g h
+  generalize hord : (rz && g.name.isOrd) = ord
+  simp only [routeSwp, hmin, hmax, rep_argFix, rep_rzFix, if_true, hx, hord]
   by_cases hfw : setup = .linear ∨ (setup = .circular ∧ e - s ≤ N / 2)
   · rw [if_pos hfw]
-    obtain ⟨S, e1, e2, e3⟩ := fwd_spec setup.eff N (mkSwp g.name g.arg x) s e hse heN
-    refine ⟨S, track S s, track S e, ⟨e1, e3, ?_⟩, ?_⟩
-    · rcases hr with ⟨rfl, rfl⟩ | ⟨rfl, rfl⟩ <;> (unfold Adj; omega)
-    · rcases hr with ⟨rfl, rfl⟩ | ⟨rfl, rfl⟩
-      · exact Or.inl ⟨rfl, rfl⟩
-      · exact Or.inr ⟨rfl, rfl⟩
+    obtain ⟨S, e1, e2, e3⟩ := fwd_spec setup.eff N (mkOrd g.name g.arg x (ord && (t0 == e))) s e hse heN
+    rcases hr with ⟨rfl, rfl⟩ | ⟨rfl, rfl⟩
+    · have hf : (ord && (s == e)) = false := by
+        have : (s == e) = false := by simp; omega
+        simp [this]
+      rw [hf] at e1 ⊢
+      exact ⟨S, track S s, track S e, ⟨by rw [e1]; rfl, e3, by unfold Adj; omega⟩, Or.inl ⟨rfl, rfl⟩⟩
+    · have hf : (ord && (e == e)) = ord := by simp
+      rw [hf] at e1 ⊢
+      cases ord
+      · exact ⟨S, track S s, track S e, ⟨by rw [e1]; rfl, e3, by unfold Adj; omega⟩, Or.inr ⟨rfl, rfl, rfl⟩⟩
+      · exact ⟨S, track S e, track S s, ⟨by rw [e1]; rfl, e3, by unfold Adj; omega⟩, Or.inl ⟨rfl, rfl⟩⟩
   · rw [if_neg hfw]
     have hcirc : setup.eff = .circular := by
       cases setup
@@ -244,15 +262,20 @@ theorem routeSwp_specV (cc : Bool) (N : Nat) (setup : Setup)
       · rfl
       · rfl
     rw [hcirc]
-    obtain ⟨S, e1, e2, e3⟩ := bwd_spec N (mkSwp g.name g.arg x) (mkSwp g.name g.arg x) (reidxSwp1 (.rep cc) N e) s e
-      hse heN (reidxSwp1_swapG cc N e) (fun j lo hi => reidxSwp1_mkSwp cc N e j g.name g.arg x hx0 lo hi)
-    refine ⟨S, track S e, track S s, ⟨e1, e3, ?_⟩, ?_⟩
-    · rcases hr with ⟨rfl, rfl⟩ | ⟨rfl, rfl⟩
-      · exact e2.symm
-      · exact e2
-    · rcases hr with ⟨rfl, rfl⟩ | ⟨rfl, rfl⟩
-      · exact Or.inr ⟨rfl, rfl⟩
-      · exact Or.inl ⟨rfl, rfl⟩
+    obtain ⟨S, e1, e2, e3⟩ := bwd_spec N (mkOrd g.name g.arg x (ord && (t0 == s))) (mkOrd g.name g.arg x (ord && (t0 == s)))
+      (reidxSwp1 (.rep cc rz) N e) s e
+      hse heN (reidxSwp1_swapG cc rz N e) (fun j lo hi => reidxSwp1_mkOrd cc rz N e j g.name g.arg x hx0 _ lo hi)
+    rcases hr with ⟨rfl, rfl⟩ | ⟨rfl, rfl⟩
+    · have hf : (ord && (s == s)) = ord := by simp
+      rw [hf] at e1 ⊢
+      cases ord
+      · exact ⟨S, track S e, track S s, ⟨by rw [e1]; rfl, e3, e2.symm⟩, Or.inr ⟨rfl, rfl, rfl⟩⟩
+      · exact ⟨S, track S s, track S e, ⟨by rw [e1]; rfl, e3, e2.symm⟩, Or.inl ⟨rfl, rfl⟩⟩
+    · have hf : (ord && (e == s)) = false := by
+        have : (e == s) = false := by simp; omega
+        simp [this]
+      rw [hf] at e1 ⊢
+      exact ⟨S, track S e, track S s, ⟨by rw [e1]; rfl, e3, e2⟩, Or.inl ⟨rfl, rfl⟩⟩
 
 /-! ### the two documented setups, conditions dropped (`Variant.fixed`) -/
 
@@ -261,14 +284,18 @@ theorem routeCtl_spec (N : Nat) (setup : Setup) (hs : setup = .linear ∨ setup 
     (hct : c ≠ t) (hc : c < N) (ht : t < N) :
     ∃ out S, routeCtl .fixed N setup g c t = .ok out ∧
       Routed setup N c t out S ⟨g.name, [track S c], [track S t], 0, 0⟩ := by
-  have := routeCtl_specV false N setup g c t hnm hC hT hct hc ht
+  have := routeCtl_specV false false N setup g c t hnm hC hT hct hc ht
   rwa [Setup.eff_of_doc hs] at this
 
 theorem routeSwp_spec (N : Nat) (setup : Setup) (hs : setup = .linear ∨ setup = .circular)
     (g : Gate) (t0 t1 : Nat) (h01 : t0 ≠ t1) (h0 : t0 < N) (h1 : t1 < N) :
     ∃ S p q, Routed setup N t0 t1 (routeSwp .fixed N setup g t0 t1) S ⟨g.name, [], [p, q], g.arg, 0⟩ ∧
       ((p = track S t0 ∧ q = track S t1) ∨ (p = track S t1 ∧ q = track S t0)) := by
-  have := routeSwp_specV false N setup g t0 t1 h01 h0 h1
-  rwa [Setup.eff_of_doc hs] at this
+  obtain ⟨S, p, q, h2, h3⟩ := routeSwp_specV false false N setup g t0 t1 h01 h0 h1
+  rw [Setup.eff_of_doc hs] at h2
+  refine ⟨S, p, q, h2, ?_⟩
+  rcases h3 with h | ⟨-, h⟩
+  · exact Or.inl h
+  · exact Or.inr h
 
 end QipVerif.Route
